@@ -1,4 +1,4 @@
 from props_a import check_C01, check_C02, check_C06, check_C10, check_C14
 from props_b import check_C03, check_C04, check_C05, check_C11, check_C12, check_C20
-CHECKS = {"C01": check_C01, "C02": check_C02, "C03": check_C03, "C04": check_C04, "C05": check_C05, "C06": check_C06, "C10": check_C10,
-          "C11": check_C11, "C12": check_C12, "C14": check_C14, "C20": check_C20}
+from props_c import check_C07, check_C08, check_C09, check_C13, check_C15, check_C16, check_C17, check_C18, check_C19
+CHECKS = {f"C{i:02d}": globals()[f"check_C{i:02d}"] for i in range(1, 21)}
